@@ -4,6 +4,7 @@ import (
 	"fmt"
 
 	"github.com/basecomplextech/baselibrary/alloc"
+	"github.com/basecomplextech/baselibrary/async"
 	"github.com/basecomplextech/baselibrary/bin"
 	"github.com/basecomplextech/baselibrary/status"
 	"github.com/basecomplextech/spec/proto/pmpx"
@@ -363,4 +364,129 @@ func init() {
 			},
 		})
 	}
+}
+
+// X2: the channel ends on the client side with a SendAndClose whose (caller-owned) context is cancelled while the close
+// frame waits for space in the connection write queue, followed by Free. The channel has ended from the client side;
+// the server handler's context must be cancelled / its Receive must end while the connection stays healthy.
+func init() {
+	vexp.Register(&vexp.Scenario{
+		Name: "c20.X2.sendandclose-cancelled-while-waiting-then-free", Prop: "C20", Also: []string{"C06"}, MaxSteps: 200000,
+		Bounds: func(thorough bool) vexp.Bounds {
+			if thorough {
+				return vexp.Bounds{P: 1, F: 1, E: 0}
+			}
+			return vexp.Bounds{P: 1, F: 0, E: 0}
+		},
+		Configs: func(thorough bool) []map[string]int {
+			return []map[string]int{{"window": 4096, "writeq": 64, "rbuf": 16, "wbuf": 16, "size": 100, "first": 0},
+				{"window": 4096, "writeq": 64, "rbuf": 16, "wbuf": 16, "size": 0, "first": 0},
+				{"window": 4096, "writeq": 64, "rbuf": 16, "wbuf": 16, "size": 100, "first": 1}}
+		},
+		Doc: "real client and server connections. The server stops reading, the client's sibling channel B fills the 64-byte write queue until its Send blocks. The client then calls SendAndClose(ctx, m) on channel A (first=0: A is open and its handler is waiting in Receive; first=1: m would also open A): the frame waits for queue space, ctx is cancelled, SendAndClose fails; the client Frees A. The server reads again. A has ended from the client side: the server's handler of A (if the peer ever learnt of A) must see its context cancelled and its Receive end, exactly once, while the connection stays open and B is delivered completely",
+		Body: func(x *vexp.Ctx) {
+			size := x.P("size", 100)
+			first := x.P("first", 0) == 1
+			aStarted, aCancelled, aRuns := false, false, 0
+			bEnd, bGot := false, 0
+			aGot := 0
+			handler := HandleFunc(func(ctx Context, ch Channel) status.Status {
+				msg, st := ch.Receive(async.NoContext())
+				if !st.OK() {
+					return st
+				}
+				if string(msg) == "b" {
+					for {
+						if _, st := ch.Receive(async.NoContext()); !st.OK() {
+							bEnd = st.Code == status.CodeEnd
+							return status.OK
+						}
+						bGot++
+					}
+				}
+				aStarted = true
+				aRuns++
+				if string(msg) != "A" {
+					aGot++
+				}
+				for {
+					if _, st := ch.Receive(async.NoContext()); !st.OK() {
+						break
+					}
+					aGot++
+				}
+				aCancelled = ctx.Done()
+				return status.OK
+			})
+			w := newWide(x, handler)
+			live := async.NoContext()
+			chA, st := w.cli.Channel(live)
+			if !st.OK() {
+				x.Fail("Channel fails on a healthy connection", "%v", st)
+				return
+			}
+			chB, st := w.cli.Channel(live)
+			if !st.OK() {
+				x.Fail("Channel fails on a healthy connection", "%v", st)
+				return
+			}
+			if !first {
+				chA.Send(live, []byte("A"))
+			}
+			chB.Send(live, []byte("b"))
+			vsched.WaitIdle("channels open")
+			w.b.StallAfterRead(0, nil)
+			w.a.SetWriteCapacity(32)
+			bDone, bSent := false, 0
+			vsched.GoNamed("client.B", func() {
+				for k := 0; k < 3; k++ {
+					if st := chB.Send(live, vPayload(0, 1, k, 1995)); !st.OK() {
+						break
+					}
+					bSent++
+				}
+				chB.Free()
+				bDone = true
+			})
+			vsched.WaitIdle("write queue full, B blocked")
+			cctx := async.NewContext()
+			defer cctx.Free()
+			aDone := false
+			sacSt := ""
+			vsched.GoNamed("client.A", func() {
+				defer func() { aDone = true }()
+				var m []byte
+				if size > 0 {
+					m = vPayload(0, 0, 0, size)
+				}
+				st := chA.SendAndClose(cctx, m)
+				sacSt = string(st.Code)
+				chA.Free()
+			})
+			vsched.WaitIdle("A's SendAndClose waits for the write queue")
+			cctx.Cancel()
+			vsched.WaitIdle("SendAndClose returned, Free called or waiting")
+			w.b.Unstall()
+			vsched.Join("client done", func() bool { return aDone && bDone && bEnd })
+			// the server must learn of A's end if it ever learnt of A
+			vsched.WaitIdle("server settles")
+			if aStarted && !aCancelled {
+				x.Fail("channel ended by its client (SendAndClose "+sacSt+", then Free) but the server handler is never cancelled", "handler of A still waits in Receive on a healthy connection; SendAndClose returned %s", sacSt)
+			}
+			if aRuns > 1 {
+				x.Fail("handler invoked more than once for one channel", "%d", aRuns)
+			}
+			if bGot != bSent || bSent != 3 {
+				x.Fail("sibling channel lost messages", "sent %d received %d", bSent, bGot)
+			}
+			if w.cli.closed.IsSet() || w.srv.closed.IsSet() {
+				x.Fail("connection closed by the end of a channel", "")
+			}
+			for _, e := range w.log.bad() {
+				x.Fail("error logged: "+errSig(e), "%s", e)
+			}
+			x.Outcome = fmt.Sprintf("sac=%s started=%v cancelled=%v aGot=%d", sacSt, aStarted, aCancelled, aGot)
+			w.shutdown()
+		},
+	})
 }
